@@ -632,6 +632,10 @@ def run_grain(case):
         # grains in the last size class (they can leave through the end of the grid)
         if zz == 0 and not avg >= prevR * (1 - 1e-12):
             why = '/last-class-populated' if prev[0][-1] > 0 else ('' if same_grid else '/on-remesh')
+            if not same_grid:
+                # a decrease on a step that re-binned the distribution is identified by the configuration and the re-binning, so that
+                # any other decrease (other input, other grid change, or none) is a different signature
+                why += '/remesh=%d->%d-classes/dist=%s/grid=%s/it=%s' % (len(prev[0]), len(psd), dist, grid, it)
             bad('mean-size-decreases' + why, '%s: mean size %.17g -> %.17g without drag (number of grains per volume %.9g -> %.9g, last size class held %.3g)'
                 % (where, prevR, avg, float(np.sum(prev[0])), float(np.sum(psd)), float(prev[0][-1])))
         # statement: Zener drag freezes the structure when strong enough: beyond the freezing drag of the initial state no size
